@@ -138,6 +138,8 @@ def run(ctx):
             z = is_zero_test(ev[2], ('param', 2))
             if z and ((z == 'eq') == branch_truth(ev)):
                 zero_true = True
+            if unwrap_cast(ev[2]) == ('param', 2) and ev[3] == 0:
+                zero_true = True        # `match expected_size { 0 => .., n => .. }`: the arm of the value 0
         if unsized:
             n_unsized += 1
             ctx.check(zero_true and not sized, 'R13.1', 'link_read:unsized',
